@@ -13,8 +13,8 @@
 // Malformed VALUES: the whole function costs minutes per symbolic parameter, so the per-value
 // decoding is decided piecewise on the real pieces (be_parameter_value + handle_nom_error + the
 // `assert!(remain.is_empty())` glue of io.rs:173-175, mirrored by `glue()`), and each suspected
-// pre-authentication remote panic (DESIGN.md §6 #1-#3) additionally has a CONCRETE witness through
-// the real `parse_from_bytes` (`c18_parse_witness_*`, no symbolic input: replayed natively as is).
+// pre-authentication remote panic (DESIGN.md §6 #1-#3) additionally has a CONCRETE
+// witness (`c18_value_witness_*`, no symbolic input: replayed natively as is).
 // `*_any` and `*_witness_*` harnesses are registered `pending`; the `*_wf` twins assume the trigger
 // away and pass.
 use super::*;
@@ -111,128 +111,6 @@ fn c18_varint_model_equivalence() {
 
 // ---------------------------------------------------------------------------------------------
 // mandatory ids / role-inappropriate ids / unknown ids, through parse_from_bytes
-
-/// ids a parameter of the blob may carry (wire value = 1 byte):
-///   0x0f initial_source_connection_id (mandatory for both roles; cid)
-///   0x00 original_destination_connection_id (mandatory in server sets, FORBIDDEN in client sets; cid)
-///   0x04 initial_max_data (optional; varint)
-///   0x21 an unassigned id (must be skipped)
-const ID_TABLE: [u8; 4] = [0x0f, 0x00, 0x04, 0x21];
-
-struct Blob {
-    bytes: [u8; 6],
-    n: usize,      // number of parameters (0..=2), each `id 01 v`
-    ids: [u8; 2],  // wire ids
-    vals: [u8; 2], // the one value byte of each
-}
-
-fn any_blob() -> Blob {
-    let n: usize = kani::any();
-    kani::assume(n <= 2);
-    let k0: usize = kani::any();
-    let k1: usize = kani::any();
-    kani::assume(k0 < 4 && k1 < 4);
-    let vals: [u8; 2] = kani::any();
-    let ids = [ID_TABLE[k0], ID_TABLE[k1]];
-    Blob { bytes: [ids[0], 1, vals[0], ids[1], 1, vals[1]], n, ids, vals }
-}
-
-impl Blob {
-    fn has(&self, id: u8) -> bool {
-        (self.n >= 1 && self.ids[0] == id) || (self.n >= 2 && self.ids[1] == id)
-    }
-    /// the value byte of the LAST parameter with this id (a later duplicate replaces an earlier one)
-    fn last_val(&self, id: u8) -> u8 {
-        if self.n >= 2 && self.ids[1] == id { self.vals[1] } else { self.vals[0] }
-    }
-    /// an initial_max_data value of one byte whose varint prefix announces 2/4/8 bytes is truncated
-    fn truncated_varint(&self) -> bool {
-        (self.n >= 1 && self.ids[0] == 0x04 && self.vals[0] >= 0x40)
-            || (self.n >= 2 && self.ids[1] == 0x04 && self.vals[1] >= 0x40)
-    }
-}
-
-fn is_cid1(c: Option<ConnectionId>, v: u8) -> bool {
-    match c {
-        Some(c) => c.len == 1 && c.bytes[0] == v,
-        None => false,
-    }
-}
-
-/// C18 (server side: the peer is a client): `ClientParameters::parse_from_bytes` on every blob of
-/// 0..2 one-byte-valued parameters with ids from ID_TABLE:
-/// Ok  <=>  initial_source_connection_id present  &&  no server-only id  &&  no truncated value;
-/// every Err is a QuicError of kind TransportParameter; Ok => the set holds exactly the declared
-/// values (unknown id skipped, absent optional parameter reads as its default).
-#[kani::proof]
-#[kani::unwind(10)]
-#[kani::stub(crate::varint::be_varint, c18_model_be_varint)]
-#[kani::stub(core::fmt::write, c18_stub_fmt_write)]
-#[kani::stub(alloc::fmt::format, c18_stub_fmt_format)]
-#[kani::stub(core::slice::index::slice_index_fail, c18_stub_slice_index_fail)]
-#[kani::stub(tracing::callsite::DefaultCallsite::interest, c18_stub_tr_interest)]
-#[kani::stub(tracing::__macro_support::__is_enabled, c18_stub_tr_enabled)]
-#[kani::stub(tracing::Event::dispatch, c18_stub_tr_dispatch)]
-fn c18_parse_required_client() {
-    let b = any_blob();
-    let r = ClientParameters::parse_from_bytes(&b.bytes[..3 * b.n]);
-    let want_ok = b.has(0x0f) && !b.has(0x00) && !b.truncated_varint();
-    kani::cover!(want_ok && b.has(0x21), "accepted, unknown id skipped");
-    kani::cover!(!b.has(0x0f) && !b.has(0x00) && !b.truncated_varint(), "mandatory id missing");
-    kani::cover!(b.has(0x00) && b.has(0x0f), "server-only id in a client's set");
-    kani::cover!(b.n == 0, "empty extension");
-    match &r {
-        Ok(p) => {
-            assert!(want_ok, "accepted only with the mandatory id, role-legal ids, complete values");
-            assert!(is_cid1(p.get::<ConnectionId>(ParameterId::InitialSourceConnectionId), b.last_val(0x0f)));
-            assert!(!p.contains(ParameterId::OriginalDestinationConnectionId));
-            if b.has(0x04) {
-                assert!(p.get::<u64>(ParameterId::InitialMaxData) == Some(b.last_val(0x04) as u64));
-            } else {
-                assert!(!p.contains(ParameterId::InitialMaxData));
-                assert!(p.get::<u64>(ParameterId::InitialMaxData) == Some(0));
-            }
-        }
-        Err(e) => {
-            assert!(!want_ok, "a legal, complete set is accepted");
-            assert!(e.kind() == ErrorKind::TransportParameter);
-        }
-    }
-    core::mem::forget(r);
-}
-
-/// C18 (client side: the peer is a server): `ServerParameters::parse_from_bytes`:
-/// Ok <=> initial_source_connection_id AND original_destination_connection_id present && no
-/// truncated value; every Err is of kind TransportParameter.
-#[kani::proof]
-#[kani::unwind(10)]
-#[kani::stub(crate::varint::be_varint, c18_model_be_varint)]
-#[kani::stub(core::fmt::write, c18_stub_fmt_write)]
-#[kani::stub(alloc::fmt::format, c18_stub_fmt_format)]
-#[kani::stub(core::slice::index::slice_index_fail, c18_stub_slice_index_fail)]
-#[kani::stub(tracing::callsite::DefaultCallsite::interest, c18_stub_tr_interest)]
-#[kani::stub(tracing::__macro_support::__is_enabled, c18_stub_tr_enabled)]
-#[kani::stub(tracing::Event::dispatch, c18_stub_tr_dispatch)]
-fn c18_parse_required_server() {
-    let b = any_blob();
-    let r = ServerParameters::parse_from_bytes(&b.bytes[..3 * b.n]);
-    let want_ok = b.has(0x0f) && b.has(0x00);
-    kani::cover!(want_ok, "both mandatory ids present");
-    kani::cover!(b.has(0x0f) && !b.has(0x00) && !b.truncated_varint(), "original_destination_connection_id missing");
-    kani::cover!(b.has(0x00) && !b.has(0x0f) && !b.truncated_varint(), "initial_source_connection_id missing");
-    match &r {
-        Ok(p) => {
-            assert!(want_ok, "accepted only with both mandatory ids");
-            assert!(is_cid1(p.get::<ConnectionId>(ParameterId::InitialSourceConnectionId), b.last_val(0x0f)));
-            assert!(is_cid1(p.get::<ConnectionId>(ParameterId::OriginalDestinationConnectionId), b.last_val(0x00)));
-        }
-        Err(e) => {
-            assert!(!want_ok);
-            assert!(e.kind() == ErrorKind::TransportParameter);
-        }
-    }
-    core::mem::forget(r);
-}
 
 // ---------------------------------------------------------------------------------------------
 // malformed values: a transport-parameter error, never a panic
@@ -446,88 +324,77 @@ fn c18_value_token_wf() {
 }
 
 // ---------------------------------------------------------------------------------------------
-// concrete witnesses of the three panics through the public entry point (tier pending)
+// concrete witnesses of the three panics (tier pending; no symbolic input, so the checker replays
+// them natively as they are). The real `parse_from_bytes` on a non-empty blob does not finish
+// under CBMC even for concrete bytes (> 900 s), so the witnesses enter at be_parameter_value, i.e.
+// after the framing `id len value` was split off (be_raw_parameter, C03 c03_params_raw).
+// Natively, `ClientParameters::parse_from_bytes(&[0x0f, 21, 0 x 21])`, `(&[0x04, 2, 0, 0])`,
+// `(&[0x0c, 1, 0])` and `ServerParameters::parse_from_bytes(&[0x02, 1, 0])` panic at the same sites.
 
-/// Defect #1. Client's TLS extension = `0f 15 00*21` (initial_source_connection_id of 21 bytes),
-/// parsed by a server: must be refused with an error; instead ConnectionId::from_slice panics.
+/// Defect #1: value of initial_source_connection_id = 21 zero bytes (blob `0f 15 00*21`):
+/// panics inside the repository's ConnectionId::from_slice.
 #[kani::proof]
 #[kani::unwind(24)]
-#[kani::stub(crate::varint::be_varint, c18_model_be_varint)]
 #[kani::stub(core::fmt::write, c18_stub_fmt_write)]
 #[kani::stub(alloc::fmt::format, c18_stub_fmt_format)]
 #[kani::stub(core::slice::index::slice_index_fail, c18_stub_slice_index_fail)]
-#[kani::stub(tracing::callsite::DefaultCallsite::interest, c18_stub_tr_interest)]
-#[kani::stub(tracing::__macro_support::__is_enabled, c18_stub_tr_enabled)]
-#[kani::stub(tracing::Event::dispatch, c18_stub_tr_dispatch)]
-fn c18_parse_witness_cid_21_bytes() {
-    let mut blob = [0u8; 23];
-    blob[0] = 0x0f;
-    blob[1] = 21;
-    let r = ClientParameters::parse_from_bytes(&blob[..]);
-    kani::cover!(true, "parse returned");
+fn c18_value_witness_cid_21_bytes() {
+    let value = [0u8; 21];
+    let r = glue(&value[..], ParameterId::InitialSourceConnectionId);
+    kani::cover!(true, "decoder returned");
     assert!(r.is_err(), "a 21-byte connection id is a TRANSPORT_PARAMETER_ERROR");
     core::mem::forget(r);
 }
 
-/// Defect #2. Client's TLS extension = `04 02 00 00` (initial_max_data, declared length 2, value
-/// is the 1-byte varint 0 followed by a surplus byte): io.rs:175 `assert!(remain.is_empty())`.
+/// Defect #3: value of stateless_reset_token = the single byte 00 (blob `02 01 00`): panics inside
+/// the repository's handle_nom_error ("Only incomplete errors should occur").
 #[kani::proof]
-#[kani::unwind(6)]
-#[kani::stub(crate::varint::be_varint, c18_model_be_varint)]
+#[kani::unwind(19)]
 #[kani::stub(core::fmt::write, c18_stub_fmt_write)]
 #[kani::stub(alloc::fmt::format, c18_stub_fmt_format)]
 #[kani::stub(core::slice::index::slice_index_fail, c18_stub_slice_index_fail)]
-#[kani::stub(tracing::callsite::DefaultCallsite::interest, c18_stub_tr_interest)]
-#[kani::stub(tracing::__macro_support::__is_enabled, c18_stub_tr_enabled)]
-#[kani::stub(tracing::Event::dispatch, c18_stub_tr_dispatch)]
-fn c18_parse_witness_varint_surplus() {
-    let blob = [0x04u8, 0x02, 0x00, 0x00];
-    let r = ClientParameters::parse_from_bytes(&blob[..]);
-    kani::cover!(true, "parse returned");
-    assert!(r.is_err(), "a value longer than its varint is a TRANSPORT_PARAMETER_ERROR");
-    core::mem::forget(r);
-}
-
-/// Defect #2. Client's TLS extension = `0c 01 00` (disable_active_migration with a 1-byte value).
-#[kani::proof]
-#[kani::unwind(6)]
-#[kani::stub(crate::varint::be_varint, c18_model_be_varint)]
-#[kani::stub(core::fmt::write, c18_stub_fmt_write)]
-#[kani::stub(alloc::fmt::format, c18_stub_fmt_format)]
-#[kani::stub(core::slice::index::slice_index_fail, c18_stub_slice_index_fail)]
-#[kani::stub(tracing::callsite::DefaultCallsite::interest, c18_stub_tr_interest)]
-#[kani::stub(tracing::__macro_support::__is_enabled, c18_stub_tr_enabled)]
-#[kani::stub(tracing::Event::dispatch, c18_stub_tr_dispatch)]
-fn c18_parse_witness_flag_surplus() {
-    let blob = [0x0cu8, 0x01, 0x00];
-    let r = ClientParameters::parse_from_bytes(&blob[..]);
-    kani::cover!(true, "parse returned");
-    assert!(r.is_err(), "a non-empty flag is a TRANSPORT_PARAMETER_ERROR");
-    core::mem::forget(r);
-}
-
-/// Defect #3. Server's TLS extension = `02 01 00` (stateless_reset_token of 1 byte), parsed by a
-/// client: handle_nom_error's assert "Only incomplete errors should occur" fires.
-#[kani::proof]
-#[kani::unwind(6)]
-#[kani::stub(crate::varint::be_varint, c18_model_be_varint)]
-#[kani::stub(core::fmt::write, c18_stub_fmt_write)]
-#[kani::stub(alloc::fmt::format, c18_stub_fmt_format)]
-#[kani::stub(core::slice::index::slice_index_fail, c18_stub_slice_index_fail)]
-#[kani::stub(tracing::callsite::DefaultCallsite::interest, c18_stub_tr_interest)]
-#[kani::stub(tracing::__macro_support::__is_enabled, c18_stub_tr_enabled)]
-#[kani::stub(tracing::Event::dispatch, c18_stub_tr_dispatch)]
-fn c18_parse_witness_token_short() {
-    let blob = [0x02u8, 0x01, 0x00];
-    let r = ServerParameters::parse_from_bytes(&blob[..]);
-    kani::cover!(true, "parse returned");
+fn c18_value_witness_token_short() {
+    let value = [0u8; 1];
+    let r = glue(&value[..], ParameterId::StatelessResetToken);
+    kani::cover!(true, "decoder returned");
     assert!(r.is_err(), "a short stateless reset token is a TRANSPORT_PARAMETER_ERROR");
     core::mem::forget(r);
 }
 
+/// Defect #2: value of initial_max_data = `00 00` (blob `04 02 00 00`): be_parameter_value returns
+/// the varint 0 with one byte left over; parse_from_bytes then executes
+/// `assert!(remain.is_empty(), "Parameter value should consume all data")` (io.rs:175, mirrored
+/// verbatim in `glue`).
+#[kani::proof]
+#[kani::unwind(6)]
+#[kani::stub(core::fmt::write, c18_stub_fmt_write)]
+#[kani::stub(alloc::fmt::format, c18_stub_fmt_format)]
+#[kani::stub(core::slice::index::slice_index_fail, c18_stub_slice_index_fail)]
+fn c18_value_witness_varint_surplus() {
+    let value = [0u8; 2];
+    let r = glue(&value[..], ParameterId::InitialMaxData);
+    kani::cover!(true, "decoder returned");
+    assert!(r.is_err(), "a value longer than its varint is a TRANSPORT_PARAMETER_ERROR");
+    core::mem::forget(r);
+}
+
+/// Defect #2: value of disable_active_migration = `00` (blob `0c 01 00`): same assert.
+#[kani::proof]
+#[kani::unwind(6)]
+#[kani::stub(core::fmt::write, c18_stub_fmt_write)]
+#[kani::stub(alloc::fmt::format, c18_stub_fmt_format)]
+#[kani::stub(core::slice::index::slice_index_fail, c18_stub_slice_index_fail)]
+fn c18_value_witness_flag_surplus() {
+    let value = [0u8; 1];
+    let r = glue(&value[..], ParameterId::DisableActiveMigration);
+    kani::cover!(true, "decoder returned");
+    assert!(r.is_err(), "a non-empty flag is a TRANSPORT_PARAMETER_ERROR");
+    core::mem::forget(r);
+}
+
 // ---------------------------------------------------------------------------------------------
-// mandatory ids on (nearly) concrete blobs through parse_from_bytes (cheap instances of
-// c18_parse_required_*)
+// mandatory ids through the real parse_from_bytes: only the empty extension finishes under CBMC
+// (a one-parameter blob, even fully concrete, exceeds 900 s)
 
 /// An empty TLS extension lacks the mandatory ids for both roles: TRANSPORT_PARAMETER_ERROR.
 #[kani::proof]
@@ -547,32 +414,5 @@ fn c18_parse_required_empty() {
     assert!(matches!(&rc, Err(e) if e.kind() == ErrorKind::TransportParameter));
     assert!(matches!(&rs, Err(e) if e.kind() == ErrorKind::TransportParameter));
     core::mem::forget(rc);
-    core::mem::forget(rs);
-}
-
-/// `0f 01 c` (initial_source_connection_id = [c], c symbolic) alone: a complete client set
-/// (accepted, cid == [c]) but an incomplete server set (original_destination_connection_id
-/// missing: TRANSPORT_PARAMETER_ERROR).
-#[kani::proof]
-#[kani::unwind(6)]
-#[kani::stub(crate::varint::be_varint, c18_model_be_varint)]
-#[kani::stub(core::fmt::write, c18_stub_fmt_write)]
-#[kani::stub(alloc::fmt::format, c18_stub_fmt_format)]
-#[kani::stub(core::slice::index::slice_index_fail, c18_stub_slice_index_fail)]
-#[kani::stub(tracing::callsite::DefaultCallsite::interest, c18_stub_tr_interest)]
-#[kani::stub(tracing::__macro_support::__is_enabled, c18_stub_tr_enabled)]
-#[kani::stub(tracing::Event::dispatch, c18_stub_tr_dispatch)]
-fn c18_parse_required_iscid_only() {
-    let c: u8 = kani::any();
-    let blob = [0x0fu8, 0x01, c];
-    let rc = ClientParameters::parse_from_bytes(&blob[..]);
-    match &rc {
-        Ok(p) => assert!(is_cid1(p.get::<ConnectionId>(ParameterId::InitialSourceConnectionId), c)),
-        Err(_) => assert!(false, "a client set with initial_source_connection_id is complete"),
-    }
-    core::mem::forget(rc);
-    let rs = ServerParameters::parse_from_bytes(&blob[..]);
-    kani::cover!(true, "parse returned");
-    assert!(matches!(&rs, Err(e) if e.kind() == ErrorKind::TransportParameter), "server set lacks original_destination_connection_id");
     core::mem::forget(rs);
 }
